@@ -108,6 +108,25 @@ def recursion_findings(ctx, fqs: list[str]) -> list[list[str]]:
         cg.edges = saved
 
 
+def _descends_into_one_value(ctx, fi) -> bool:
+    """every call of the function to itself passes a member of one of its own parameters (the variable of a loop or
+    comprehension over that parameter itself), and nothing else: a conversion of a nested attribute value"""
+    ps = set(params_of(fi.node))
+    members = set()
+    for n in own_walk(fi.node):
+        if isinstance(n, ast.comprehension) and isinstance(n.iter, ast.Name) and n.iter.id in ps and isinstance(n.target, ast.Name):
+            members.add(n.target.id)
+        elif isinstance(n, ast.For) and isinstance(n.iter, ast.Name) and n.iter.id in ps and isinstance(n.target, ast.Name):
+            members.add(n.target.id)
+    rebound = {t for t, defs in assigned_names(fi.node).items()} & (ps | members)
+    calls = [cs for cs in ctx.cg.sites.get(fi.fq, []) if cs.kind == "tucan" and cs.target.fq == fi.fq]
+    if not calls or rebound - members:
+        return False
+    if any(cs.kind in ("param", "unknown") for cs in ctx.cg.sites.get(fi.fq, [])):
+        return False
+    return all(len(cs.node.args) == 1 and not cs.node.keywords and isinstance(cs.node.args[0], ast.Name) and cs.node.args[0].id in members for cs in calls)
+
+
 _FIXTURE_NOREC = '''
 def _fx_a(n):
     return _fx_b(n - 1) if n else 0
@@ -123,6 +142,10 @@ def r_norec(ctx) -> RuleResult:
     fis = all_public_closure(ctx)
     fqs = [f.fq for f in fis]
     cycles = recursion_findings(ctx, fqs)
+    nested = [c for c in cycles if len(c) == 1 and _descends_into_one_value(ctx, ctx.cg.funcs[c[0]])]
+    cycles = [c for c in cycles if c not in nested]
+    for c in nested:
+        res.inst(c[0], "calls itself only on the members of its own argument: depth = how deeply that one value is nested, not the size of the molecule", "ok")
     for f in fis:
         incyc = [c for c in cycles if f.fq in c]
         res.inst(f.fq, "not on a call cycle", "fail" if incyc else "ok")
@@ -1890,6 +1913,8 @@ def _raise_outside_domain(ctx, fi: FuncInfo, r: ast.Raise) -> Optional[str]:
         if size_calls:
             try:
                 vals = [bool(ceval(test, {}, {k: n_ for k in size_calls})) for n_ in (1, 2, 5000)]
+            except (NameError, UnboundLocalError):
+                raise
             except Exception:
                 continue
             if all(v != pol for v in vals):
